@@ -555,7 +555,8 @@ fn step(pre: &MState, op: &Op, serial: usize, o: &Obs) -> Result<MState, String>
                 allowed.iter().map(|a| a.0).collect::<Vec<_>>()
             ));
         };
-        if v == View::Stopped && pj.view != View::Stopped {
+        // (a job resumed by `fg` that stops again has been suspended anew)
+        if v == View::Stopped && (pj.view != View::Stopped || (matches!(op, Op::Fg(_)) && Some(*i) == target)) {
             newly_stopped.push(*i);
         }
         if v != pj.view {
